@@ -63,7 +63,8 @@ def verify_functions(src, quals, tags=None, interface_factory=None, timeout=30, 
                 model = '%s,%s' % (model, variant)
             if vr.out_of_reach:
                 oor.append((qual, model, vr.out_of_reach))
-                continue
+                if not vr.obligations:
+                    continue
             stats['paths'] += vr.paths
             for lk in vr.loops_unused:
                 oor.append((qual, model, 'loop specification %r matched no loop (the loop changed shape)' % (lk,)))
@@ -77,7 +78,7 @@ def verify_functions(src, quals, tags=None, interface_factory=None, timeout=30, 
                     results.append(r)
                     continue
                 text = prelude.build_query(ob.hyps, ob.goal)
-                jobs.append((len(results), text, prelude.build_query(ob.hyps, ob.goal, opaque=True)))
+                jobs.append((len(results), text, prelude.pre_query(ob)))
                 results.append(r)
     stats['gen_s'] = time.time() - t0
     t1 = time.time()
